@@ -786,6 +786,14 @@ DEFAULT_PROBES = [[str((i * 2654435761 + 12345) % 997 + 1) for i in range(2048)]
                   [str(0 if (i // 4) % 2 else (1 << 64) - 1) for i in range(2048)]]
 
 
+def _probe_list(ob):
+    """probe operand vectors of an obligation: its own (one vector or a list of vectors) or the generic ones"""
+    p = getattr(ob, "probe_inputs", None)
+    if not p:
+        return DEFAULT_PROBES
+    return list(p) if isinstance(p[0], (list, tuple)) else [p]
+
+
 def finish(ctx, results, meta, extra_results=()):
     """classify, replay, print verdict lines, write evidence; returns exit code.
 
@@ -818,7 +826,7 @@ def finish(ctx, results, meta, extra_results=()):
                 # the solver's input values may be degenerate for the native oracle (e.g. all-zero operands when the failing assertion is a
                 # harness-side contract check, or a sliced trace that carries no data): retry on the obligation's probe vector(s) before calling it an
                 # encoding mismatch
-                for pi, probe in enumerate([r.ob.probe_inputs] if getattr(r.ob, "probe_inputs", None) else DEFAULT_PROBES):
+                for pi, probe in enumerate(_probe_list(r.ob)):
                     ok2, text2, rpath2 = native_replay(ctx, r.ob, probe, "%dp%d" % (len(violations), pi), r.replay_defs, r.replay_sanitizer)
                     if ok2:
                         ok, text, rpath = ok2, text2, rpath2
@@ -838,7 +846,7 @@ def finish(ctx, results, meta, extra_results=()):
             # The solver side gave no verdict (time, memory, a construct outside the interpreted fragment - e.g. accesses through a pointer made from an
             # integer).  If the obligation carries a generic probe vector, the native harness (real code + exact oracle) is run on it: a failure there is a
             # violation of the property demonstrated on the real code, reported as such and labelled as found by the probe, not by the solver.
-            probes = [r.ob.probe_inputs] if getattr(r.ob, "probe_inputs", None) else DEFAULT_PROBES
+            probes = _probe_list(r.ob)
             ok = False
             if len(violations) < MAX_REPLAYS and "build:" not in (r.detail or ""):
                 for pi, probe in enumerate(probes):
